@@ -961,7 +961,7 @@ fn decode_gvar(b: &[u8], npts: &[usize]) -> Result<DecGvar, String> {
             let size = h.u16()? as usize;
             let ti = h.u16()?;
             let embedded = ti & 0x8000 != 0;
-            let mut rd_tuple = |h: &mut Rd| -> Result<Vec<i16>, String> { (0..axis_count).map(|_| h.u16().map(|v| v as i16)).collect() };
+            let rd_tuple = |h: &mut Rd| -> Result<Vec<i16>, String> { (0..axis_count).map(|_| h.u16().map(|v| v as i16)).collect() };
             let peak = if embedded { rd_tuple(&mut h)? } else { shared.get((ti & 0x0FFF) as usize).cloned().ok_or_else(|| format!("glyph {g} tuple {t}: shared tuple index {} of {}", ti & 0x0FFF, shared.len()))? };
             let inter = if ti & 0x4000 != 0 { Some((rd_tuple(&mut h)?, rd_tuple(&mut h)?)) } else { None };
             let private = ti & 0x2000 != 0;
